@@ -175,4 +175,125 @@ theorem C14_registry (ops : List SysOp) :
   simp only [registryOf, Sys.ssh, List.filterMap_map] at this
   exact this
 
+/-! ### C14 over ALL fault sequences: a message leaves a push subscription only through an accepted answer -/
+
+/-- One event in the life of a push subscription: a Publish on its topic, a push round (the
+    `pull 1000` turn — every delivery it returns is POSTed), the endpoint's behaviour for the POST
+    of ack id `a` reaching the dispatcher (any status, a connection error, or nothing at all), and the
+    expiry timer. Any list of these is a history; the outcomes are arbitrary (fault sequences), and so
+    is the order in which answers arrive. -/
+inductive PushEv where
+  | post (ms : List Msg)
+  | round (now : Nat)
+  | answer (a : Nat) (o : Outcome)
+  | tick (now : Nat)
+deriving Repr
+
+/-- The subscription-actor turn an event causes (an unanswered POST causes none). -/
+def PushEv.turn : PushEv → Option SubTurn
+  | .post ms => some (.post ms)
+  | .round now => some (.pull 1000 now)
+  | .answer a o => dispatchTurn a o
+  | .tick now => some (.expire now)
+
+def pushTurns (evs : List PushEv) : List SubTurn := evs.filterMap PushEv.turn
+
+theorem pushTurns_cons (e : PushEv) (es : List PushEv) :
+    pushTurns (e :: es) = (match e.turn with | some t => [t] | none => []) ++ pushTurns es := by
+  unfold pushTurns
+  simp only [List.filterMap_cons]
+  cases e.turn <;> rfl
+
+theorem pushTurns_noDelete (evs : List PushEv) : NoDelete (pushTurns evs) := by
+  intro t ht
+  unfold pushTurns at ht
+  obtain ⟨e, _, he⟩ := List.mem_filterMap.mp ht
+  cases e with
+  | post ms => simp [PushEv.turn] at he; subst he; simp
+  | round now => simp [PushEv.turn] at he; subst he; simp
+  | tick now => simp [PushEv.turn] at he; subst he; simp
+  | answer a o =>
+    cases o with
+    | status c =>
+      simp only [PushEv.turn, dispatchTurn] at he
+      split at he <;> (simp at he; subst he; simp)
+    | connError => simp [PushEv.turn, dispatchTurn] at he; subst he; simp
+    | pending => simp [PushEv.turn, dispatchTurn] at he
+
+/-- Whatever was acknowledged in a push history was acknowledged by an ACCEPTED answer that arrived
+    while that delivery was still outstanding. -/
+theorem acked_by_accepted_answer : ∀ (evs : List PushEv) (s : SubState) (m : Msg), m ∈ ackedIn s (pushTurns evs) →
+    ∃ p a c rest, evs = p ++ PushEv.answer a (.status c) :: rest ∧ pushAccepts c = true ∧
+      ∃ d ∈ (s.exec (pushTurns p)).out.msgs, d.ack = a ∧ d.msg = m := by
+  intro evs
+  induction evs with
+  | nil => intro s m h; simp [pushTurns, ackedIn] at h
+  | cons e es ih =>
+    intro s m h
+    rw [pushTurns_cons] at h
+    cases ht : e.turn with
+    | none =>
+      rw [ht] at h
+      simp only [List.nil_append] at h
+      obtain ⟨p, a, c, rest, he, hc, d, hd, hda, hdm⟩ := ih s m h
+      refine ⟨e :: p, a, c, rest, by rw [he]; rfl, hc, d, ?_, hda, hdm⟩
+      rw [pushTurns_cons, ht]; exact hd
+    | some t =>
+      rw [ht] at h
+      simp only [List.singleton_append, ackedIn, List.mem_append] at h
+      rcases h with h | h
+      · -- acknowledged by this very event: it is an accepted answer
+        cases e with
+        | post ms => simp [PushEv.turn] at ht; subst ht; simp [ackedBy] at h
+        | round now => simp [PushEv.turn] at ht; subst ht; simp [ackedBy] at h
+        | tick now => simp [PushEv.turn] at ht; subst ht; simp [ackedBy] at h
+        | answer a o =>
+          cases o with
+          | connError => simp [PushEv.turn, dispatchTurn] at ht; subst ht; simp [ackedBy] at h
+          | pending => simp [PushEv.turn, dispatchTurn] at ht
+          | status c =>
+            simp only [PushEv.turn, dispatchTurn] at ht
+            by_cases hc : pushAccepts c = true
+            · simp only [hc, if_true, Option.some.injEq] at ht
+              subst ht
+              simp only [ackedBy] at h
+              split at h
+              · simp at h
+              · obtain ⟨d, hd, hdm⟩ := List.mem_map.mp h
+                obtain ⟨hd1, hd2⟩ := mem_remove_removed [a] s.out d hd
+                refine ⟨[], a, c, es, rfl, hc, d, ?_, by simpa using hd2, hdm⟩
+                simpa [pushTurns, SubState.exec] using hd1
+            · simp only [hc, Bool.false_eq_true, if_false, Option.some.injEq] at ht
+              subst ht; simp [ackedBy] at h
+      · obtain ⟨p, a, c, rest, he, hc, d, hd, hda, hdm⟩ := ih (s.turn t).1 m h
+        refine ⟨e :: p, a, c, rest, by rw [he]; rfl, hc, d, ?_, hda, hdm⟩
+        rw [pushTurns_cons, ht]
+        simpa [SubState.exec] using hd
+
+/-- **At least once until the endpoint accepts — for every fault sequence.** After ANY history of
+    publishes, push rounds, endpoint behaviours (each accepted status, any other status, connection
+    errors, answers that never come or come late, in any order) and timer ticks, every message that was
+    posted to the push subscription is either still held by it — queued, or leased and re-queued at its
+    deadline (`C04_at_deadline`), so that a later round POSTs it again (`C14_round`, `C01_drain`) — or an
+    answer with status 102, 200, 201, 202 or 204 arrived for a delivery of it while that delivery was
+    still outstanding. Nothing else ever removes a message. -/
+theorem C14_until_accepted (ackDl : Nat) (evs : List PushEv) (m : Msg) (hm : m ∈ postedIn (pushTurns evs)) :
+    m ∈ held ((SubState.init ackDl).exec (pushTurns evs)) ∨
+    ∃ p a c rest, evs = p ++ PushEv.answer a (.status c) :: rest ∧ pushAccepts c = true ∧
+      ∃ d ∈ ((SubState.init ackDl).exec (pushTurns p)).out.msgs, d.ack = a ∧ d.msg = m := by
+  have hc := exec_conserve (SubInv_init ackDl) rfl (pushTurns evs) (pushTurns_noDelete evs)
+  have hm' : m ∈ held (SubState.init ackDl) ++ postedIn (pushTurns evs) := List.mem_append_right _ hm
+  have := (hc.mem_iff (a := m)).mpr hm'
+  rcases List.mem_append.mp this with h | h
+  · exact .inl h
+  · exact .inr (acked_by_accepted_answer evs _ m h)
+
+/-! non-vacuity: rejected, then unanswered past the deadline, then accepted — held until the last step -/
+example :
+    let m : Msg := { id := 7, data := [1], attrs := [], pubTime := 0 }
+    let evs1 : List PushEv := [.post [m], .round 0, .answer 1 (.status 500), .round 5, .tick 10100000, .round 10100000]
+    let evs2 := evs1 ++ [.answer 3 (.status 204)]
+    m ∈ held ((SubState.init 10000000).exec (pushTurns evs1)) ∧
+    held ((SubState.init 10000000).exec (pushTurns evs2)) = [] := by decide
+
 end Deltio
